@@ -31,6 +31,9 @@ pub struct Scenario {
 
 pub struct C05;
 
+/// A known-finding hit inside `judge` (reported if nothing unknown turns up).
+static KNOWN_HIT: Mutex<Option<Violation>> = Mutex::new(None);
+
 fn gen_history_op(rng: &mut Rng, big: bool) -> Op {
     let thread = rng.below(3) as u32;
     match rng.below(41) {
@@ -168,6 +171,38 @@ fn judge(dirs: &Dirs, cs: &CrashState, acked: &[(String, String)], stats: &mut R
     let torn = truth0.torn_tail.is_some();
     if torn {
         stats.bump("crash_states_with_torn_frame", 1);
+    }
+
+    // (e) the caches the crash left are reconciled or ignored: C04's comparison on the recovered
+    // store (caches as found vs removed vs model), before anything else touches them
+    if cs.index % 3 == 0 || cs.before_effect.contains("cs:") {
+        let known4: Vec<String> = crate::driver::load_known_findings()
+            .into_iter()
+            .filter(|k| k.property == "C05" && k.status == "open")
+            .map(|k| k.signature)
+            .collect();
+        let mut sub = RunStats::default();
+        match crate::checks::c04::compare_store(&dirs.root, &dirs.workspace, &cs.data, &truth0, cs.index as u64 ^ 0x5eed, 1, &mut sub, &[], &[]) {
+            Ok(Some(v)) => {
+                stats.bump("recovered_store_comparisons", 1);
+                let v = Violation {
+                    class: format!("recovered_store_{}", v.class),
+                    signature: format!("recovered_store_{}", v.signature),
+                    detail: format!("crash {at}: {}", v.detail),
+                };
+                if !known4.iter().any(|k| crate::driver::sig_matches(k, &v.signature)) {
+                    return Some(v);
+                }
+                stats.bump(&format!("known:{}", v.signature), 1);
+                *KNOWN_HIT.lock().unwrap() = Some(v);
+            }
+            Ok(None) => stats.bump("recovered_store_comparisons", 1),
+            Err(e) => return Some(Violation { class: "harness".into(), signature: "harness".into(), detail: e }),
+        }
+        // compare_store replaced the simulated store directories' scratch copies only; restore the crash state
+        let _ = std::fs::remove_dir_all(&dirs.data);
+        std::fs::create_dir_all(&dirs.data).ok();
+        faults::write_tree(&dirs.data, &cs.data);
     }
 
     // (b)+(c) restart: replay must succeed, numbering gap-free
@@ -487,7 +522,8 @@ pub fn execute(sc: &Scenario, env: &Env) -> (Outcome, RunStats) {
     stats.case_hash = hash;
     stats.nontrivial = states.len() >= 10;
     stats.sim_time_ns = storesim::end_run();
-    match first_unknown.or(first_known) {
+    let hit = KNOWN_HIT.lock().unwrap().take();
+    match first_unknown.or(first_known).or(hit) {
         Some(v) => (Outcome::Violation(v), stats),
         None => (Outcome::Ok, stats),
     }
@@ -505,7 +541,7 @@ impl Check for C05 {
     }
     fn budget(&self, tier: Tier) -> Budget {
         match tier {
-            Tier::Quick => Budget { runs: 1_600, secs: 50 },
+            Tier::Quick => Budget { runs: 320, secs: 45 },
             Tier::Thorough => Budget { runs: 100_000, secs: 1500 },
         }
     }
